@@ -423,7 +423,8 @@ impl Story {
         }
 
         // Content to add to evaluation stack or the output stream
-        if should_add_to_stream {
+        // (a pointer past the end of its container resolves to nothing)
+        if should_add_to_stream && current_content_obj.is_some() {
             // If we're pushing a variable pointer onto the evaluation stack,
             // ensure that it's specific
             // to our current (possibly temporary) context index. And make a
